@@ -160,3 +160,13 @@ check("C20",
       "evaluated concretely. Bounds: assignment sequences <= 2/3, HEM and CGMY default calibrations. Outside: numerical repricing accuracy (C18), "
       "Merton/VG calibrations.",
       TECH, "DESIGN.md section 3 C20")
+
+check("C09",
+      "Symbolic forward-mode AD through the real closed-form integrals of the HEM, Merton and Variance-Gamma measures (and tools.integral) with every "
+      "model parameter and end point symbolic: dF/db = b^n nu(b), dF/da = -a^n nu(a) (nu = the model's own density method), F(a,a) = 0 per branch, "
+      "additivity across branches and with infinite ends, straddling = sum of the sides, mass >= 0, integrate_against_xn agrees with the dedicated "
+      "functions and satisfies the same derivative identities (VG up to n = 3/5), truncated measure = integral over the intersection with vanishing "
+      "density outside. Together with the fundamental theorem of calculus this gives F = integral of x^n nu on each branch for all parameters.",
+      "Trusted: z3; derivative rules of exp/erf/E1; exp/erf/E1/sqrt axioms; pi in (3.14159, 3.1416); the FTC meta-step. Outside: CGMY, all quad fallbacks "
+      "(n >= 3 for HEM/Merton), odd-moment signs. Attempted, not claimed: Merton second moment on [a, inf) (solver unknown).",
+      "symbolic forward-mode AD of the real python functions + SMT (z3, cvc5 fallback) on cross-multiplied polynomial identities in UF terms", "DESIGN.md section 3 C09")
